@@ -195,6 +195,14 @@ class _Spell(ast.NodeTransformer):
             gen = ast.GeneratorExp(elt=ast.Compare(left=ast.Name(id="j__", ctx=ast.Load()), ops=[ast.In()], comparators=[A]),
                                    generators=[ast.comprehension(target=ast.Name(id="j__", ctx=ast.Store()), iter=B, ifs=[], is_async=0)])
             return ast.copy_location(ast.UnaryOp(op=ast.Not(), operand=ast.Call(func=ast.Name(id="any", ctx=ast.Load()), args=[gen], keywords=[])), n)
+        # subtract.outer(a, b) -> a[:, None] - b[None, :]   (all pairwise differences of two vectors)
+        if isinstance(f, ast.Attribute) and f.attr == "outer" and isinstance(f.value, (ast.Name, ast.Attribute)) and len(n.args) == 2 and not n.keywords \
+                and (f.value.id if isinstance(f.value, ast.Name) else f.value.attr) in ("subtract", "add", "multiply"):
+            self.k += 1
+            op_ = {"subtract": ast.Sub(), "add": ast.Add(), "multiply": ast.Mult()}[f.value.id if isinstance(f.value, ast.Name) else f.value.attr]
+            col = ast.Subscript(value=n.args[0], slice=ast.Tuple(elts=[ast.Slice(), ast.Constant(value=None)], ctx=ast.Load()), ctx=ast.Load())
+            row = ast.Subscript(value=n.args[1], slice=ast.Tuple(elts=[ast.Constant(value=None), ast.Slice()], ctx=ast.Load()), ctx=ast.Load())
+            return ast.copy_location(ast.BinOp(left=col, op=op_, right=row), n)
         # X.searchsorted(v) -> searchsorted(X, v)
         if isinstance(f, ast.Attribute) and f.attr == "searchsorted" and n.args and not (isinstance(f.value, ast.Name) and f.value.id in ("np", "numpy")):
             self.k += 1
@@ -533,21 +541,43 @@ def _index_loops(tree):
             iname = st.target.id
             # leading run of `p = <seq>[i]` statements; the first sequence must be the one whose length bounds the loop
             lead = []
+            bases = {}
+
+            def unit_slice(sl):
+                """`k:k+1` (optionally followed by full slices): the k-th row kept with its axis - element k of S[:, None, ..]"""
+                parts = sl.elts if isinstance(sl, ast.Tuple) else [sl]
+                s0 = parts[0]
+                ok0 = isinstance(s0, ast.Slice) and s0.step is None and isinstance(s0.lower, ast.Name) and s0.lower.id == iname \
+                    and isinstance(s0.upper, ast.BinOp) and isinstance(s0.upper.op, ast.Add) and ast.unparse(s0.upper) in (f"{iname} + 1", f"1 + {iname}")
+                return ok0 and all(isinstance(x, ast.Slice) and x.lower is None and x.upper is None and x.step is None for x in parts[1:])
             for f in st.body:
                 if isinstance(f, ast.Assign) and len(f.targets) == 1 and isinstance(f.targets[0], ast.Name) and isinstance(f.value, ast.Subscript) \
                         and _plain_seq(f.value.value) and isinstance(f.value.slice, ast.Name) and f.value.slice.id == iname:
                     lead.append(f)
+                elif isinstance(f, ast.Assign) and len(f.targets) == 1 and isinstance(f.targets[0], ast.Name) and isinstance(f.value, ast.Subscript) \
+                        and _plain_seq(f.value.value) and unit_slice(f.value.slice):
+                    # rewrite the statement as `q = (S[:, None, ..])[k]` and treat it like the others
+                    parts = f.value.slice.elts if isinstance(f.value.slice, ast.Tuple) else [f.value.slice]
+                    view = ast.Subscript(value=f.value.value, slice=ast.Tuple(elts=[ast.Slice(), ast.Constant(value=None)] + [ast.Slice() for _ in parts[1:]],
+                                                                            ctx=ast.Load()), ctx=ast.Load())
+                    if ast.dump(f.value.value) != ast.dump(S):
+                        break                      # only the sequence whose length bounds the loop
+                    bases[id(view)] = f.value.value
+                    f.value = ast.Subscript(value=view, slice=ast.Name(id=iname, ctx=ast.Load()), ctx=ast.Load())
+                    lead.append(f)
                 else:
                     break
-            if not lead or len(lead) == len(st.body) or not any(ast.dump(f.value.value) == ast.dump(S) for f in lead):
+            def base_of(f):
+                return bases.get(id(f.value.value), f.value.value)
+            if not lead or len(lead) == len(st.body) or not any(ast.dump(base_of(f)) == ast.dump(S) for f in lead):
                 continue
-            lead.sort(key=lambda f: ast.dump(f.value.value) != ast.dump(S))       # stable: the bounding sequence first
+            lead.sort(key=lambda f: ast.dump(base_of(f)) != ast.dump(S))       # stable: the bounding sequence first
             names = [f.targets[0].id for f in lead]
             if len(set(names)) != len(names):
                 continue
             rest = st.body[len(lead):]
             rebinds = any(isinstance(x, ast.Name) and isinstance(x.ctx, ast.Store) and x.id in names + [iname] for b in rest for x in ast.walk(b))
-            seqs = [ast.unparse(f.value.value) for f in lead]
+            seqs = [ast.unparse(base_of(f)) for f in lead]
             stores_S = any(isinstance(x, (ast.Attribute, ast.Name, ast.Subscript)) and isinstance(x.ctx, ast.Store) and
                            any(ast.unparse(x).startswith(q) for q in seqs) for b in rest for x in ast.walk(b))
             if rebinds or stores_S:
